@@ -321,6 +321,8 @@ def gen_own_filter(model):
 
 def classify(filters, missing, extra, store):
     if any(f[0] in TS_PROPS and f[1] == "in" for f in filters) and missing and not extra:
+        if any(f[0] in TS_PROPS and f[1] == "in" and isinstance(f[2], (list, tuple)) and any(isinstance(x, str) and tsor.text_us(x) is None for x in f[2]) for f in filters):
+            return "in-list-timestamps-among-other-strings"
         return "in-list-timestamp-strings"
     if any(f[0] in ("type", "id") for f in filters) and store.startswith("FileSystem"):
         return "filesystem-type-id-shortcut"
